@@ -5,6 +5,10 @@
 //!      The model answers with the least solution of the constraint set computed by the proven
 //!      reference unifier (= principal solution, remaining variables unit) or `err` when the
 //!      constraints have no finite solution.
+//! op:  `inferub P|N <i_1,…,i_k> <plan> T:…` → same answer format; the model runs the transcribed
+//!      union-bound algorithm (`Prog.inferUB`: slab of bounds, union–find with rank and path halving,
+//!      `bind`/`unify`, deferred occurs check, `finalize`) constructing the nodes in the order
+//!      `i_1 … i_k`; one line per construction order the implementation was run in.
 //! oracle (implementation alone): the same plan built in k random topological orders, each in a
 //! fresh context, is accepted/rejected identically and gets identical arrows at every node; every
 //! node's arrow satisfies the typing rule of its combinator (independent checker below); every
@@ -282,8 +286,10 @@ pub fn one(ctx: &mut Ctx, plan: &Plan, program: bool, kind: &str, to_model: bool
     let mode = if program { "P" } else { "N" };
     let line = format!("infer {mode} {}{}", plan.text(), progs::jet_types(plan));
     let mut results: Vec<Result<String, String>> = vec![];
+    let mut used_orders: Vec<Vec<usize>> = vec![];
     for k in 0..orders {
         let order = if k == 0 { None } else { Some(gen::random_topo_order(&mut ctx.rng, plan)) };
+        used_orders.push(order.clone().unwrap_or_else(|| plan.reachable()));
         let res = catch(|| gen::arrows_of_plan(plan, order.as_deref(), program));
         // a constructor that failed must fail again when called again (gen::build retries once)
         if let Ok(mut v) = gen::RETRY_ACCEPTED.lock() {
@@ -353,6 +359,18 @@ pub fn one(ctx: &mut Ctx, plan: &Plan, program: bool, kind: &str, to_model: bool
     };
     if to_model {
         ctx.op(&line, &out);
+        // the transcribed union-bound algorithm (`Prog.inferUB`), run in each construction order,
+        // must give what the implementation gave in that order
+        for (order, r) in used_orders.iter().zip(results.iter()) {
+            let ord = order.iter().map(|i| i.to_string()).collect::<Vec<_>>().join(",");
+            let ub_line = format!("inferub {mode} {ord} {}{}", plan.text(), progs::jet_types(plan));
+            let ub_out = match r {
+                Ok(a) => format!("ok {a}"),
+                Err(_) => "err".to_string(),
+            };
+            ctx.op(&ub_line, &ub_out);
+            ctx.count("ub-lines");
+        }
     }
     let nontrivial = plan.nodes.len() >= 6;
     ctx.case(if nontrivial { Some(&line) } else { None });
